@@ -195,6 +195,25 @@ def layer_wiring(c):
     c.inv("true", z3.BoolVal(True))
 
 
+def header_path_wiring(c):
+    """USB3ProtocolLayer.elaborate(): the generator's packets reach the link layer's header_sink through the layer's
+    HeaderQueueArbiter (second producer: the link management packet handler).  All interface signals are free inputs."""
+    from luna.gateware.usb.usb3.link.header import HeaderQueueArbiter
+    from luna.gateware.usb.usb3.protocol.link_management import LinkManagementPacketHandler
+    from .c46_ss_in_endpoint import open_protocol_layer, header_arbiter_path, record_same, same
+    d, link, ts = open_protocol_layer(c)
+    g = ts.instance(TransactionPacketGenerator)
+    lmp = ts.instance(LinkManagementPacketHandler)
+    header_arbiter_path(c, ts, ts.instance(HeaderQueueArbiter), [("lmp_handler", lmp.header_source), ("tp_generator", g.header_source)],
+                        link.header_sink, "tx_headers")
+    c.lemma("generator_interface_is_endpoint_handshakes_out", record_same(ts, g.interface, d.endpoint_interface.handshakes_out),
+            clause="every field of the endpoint interface's handshakes_out (requests, endpoint number, retry flag, sequence number in; "
+                   "ready / done back) is the generator's interface")
+    c.lemma("generator_address_is_current_address", same(ts, g.address, d.current_address), clause="carrying the device address")
+    c.cosim_cycles = 16
+
+
 def contracts(tier):
     yield ("TransactionPacketGenerator", "", generator)
     yield ("USB3ProtocolLayer", "handshake_wiring", layer_wiring)
+    yield ("USB3ProtocolLayer", "wiring_header_path", header_path_wiring)
